@@ -378,6 +378,38 @@ func (p *parser) postfix() (Expr, error) {
 	}
 }
 
+// postfixType reads a (possibly qualified, possibly nested slice/pointer) type name.
+func (p *parser) postfixType() (string, error) {
+	out := ""
+	for {
+		if p.isOp("[") {
+			p.next()
+			if err := p.expect("]"); err != nil {
+				return "", err
+			}
+			out += "[]"
+			continue
+		}
+		if p.isOp("*") {
+			p.next()
+			out += "*"
+			continue
+		}
+		break
+	}
+	t := p.next()
+	if t.kind != "ident" {
+		return "", fmt.Errorf("expected type name at %d in %q", t.pos, p.src)
+	}
+	out += t.text
+	for p.isOp(".") {
+		p.next()
+		n := p.next()
+		out += "." + n.text
+	}
+	return out, nil
+}
+
 func (p *parser) primary() (Expr, error) {
 	t := p.next()
 	switch t.kind {
@@ -433,6 +465,22 @@ func (p *parser) primary() (Expr, error) {
 		}
 		return &EIdent{t.text}, nil
 	case "op":
+		if t.text == "[" && p.isOp("]") {
+			// slice type used as an argument of istype/as: []T
+			p.next()
+			inner, err := p.postfixType()
+			if err != nil {
+				return nil, err
+			}
+			return &EIdent{"[]" + inner}, nil
+		}
+		if t.text == "*" {
+			x, err := p.unary()
+			if err != nil {
+				return nil, err
+			}
+			return &EUnary{"*", x}, nil
+		}
 		if t.text == "(" {
 			e, err := p.expr(0)
 			if err != nil {
